@@ -195,7 +195,7 @@ func verifyClientRequest(w http.ResponseWriter, r *http.Request) (errCode int, _
 	}
 
 	// The RFC states to remove any leading or trailing whitespace.
-	websocketSecKey := strings.TrimSpace(websocketSecKeys[0])
+	websocketSecKey := trimOWS(websocketSecKeys[0])
 	if v, err := base64.StdEncoding.DecodeString(websocketSecKey); err != nil || len(v) != 16 {
 		return http.StatusBadRequest, fmt.Errorf("WebSocket protocol violation: invalid Sec-WebSocket-Key %q, must be a 16 byte base64 encoded string", websocketSecKey)
 	}
@@ -360,13 +360,22 @@ func headerTokens(h http.Header, key string) []string {
 	key = textproto.CanonicalMIMEHeaderKey(key)
 	var tokens []string
 	for _, v := range h[key] {
-		v = strings.TrimSpace(v)
+		v = trimOWS(v)
 		for _, t := range strings.Split(v, ",") {
-			t = strings.TrimSpace(t)
+			t = trimOWS(t)
 			tokens = append(tokens, t)
 		}
 	}
 	return tokens
+}
+
+// trimOWS removes the optional white space of a header field, which is space
+// and horizontal tab only (RFC 7230 section 3.2.3). strings.TrimSpace also removes
+// Unicode white space such as U+00A0 and U+0085, which net/http lets through:
+// "websocket\u00a0" is not the token websocket and a key followed by U+00A0 is
+// not the base64 encoding of 16 bytes.
+func trimOWS(s string) string {
+	return strings.Trim(s, " \t")
 }
 
 var keyGUID = []byte("258EAFA5-E914-47DA-95CA-C5AB0DC85B11")
